@@ -824,3 +824,29 @@ Proof.
       destruct (accept_udp id rid tc); [simpl; auto|].
       destruct t as [orig wire rq| | |]; simpl; auto. split; [eapply TQ; reflexivity | auto].
 Qed.
+
+(* ===================================================================== *)
+(* the adaptive first-retry delay stays in its documented range          *)
+(* ===================================================================== *)
+Lemma clamp_in_range : forall t, MIN_TIMEOUT <= clamp_timeout t <= MAX_TIMEOUT.
+Proof. intros t. unfold clamp_timeout, MIN_TIMEOUT, MAX_TIMEOUT. lia. Qed.
+
+Lemma adapt_in_range : forall initial cur dur attempts,
+  MIN_TIMEOUT <= cur <= MAX_TIMEOUT ->
+  MIN_TIMEOUT <= adapt initial cur dur attempts <= MAX_TIMEOUT.
+Proof.
+  intros initial cur dur attempts H. unfold adapt.
+  destruct (attempts <=? 1); [exact H|].
+  destruct (dur <? initial).
+  - destruct (dur <=? cur); [apply clamp_in_range | exact H].
+  - apply clamp_in_range.
+Qed.
+
+(* hence a query never starts with a first-retry delay above 2 s, and by
+   retry_bounded never runs longer than 50.75 s *)
+Lemma retry_bounded_capped : forall fates jit t0, 0 < t0 <= MAX_TIMEOUT ->
+  elapsed (retry fates jit t0) <= 50750000000.
+Proof.
+  intros fates jit t0 [H0 H1]. destruct (retry_bounded fates jit t0 H0) as (_ & B & _).
+  unfold MAX_TIMEOUT in H1. lia.
+Qed.
